@@ -14,6 +14,9 @@ From PydoctorVerif Require Import Base.Sexp Model.ReDeriv Model.OptTypes Gen.Tab
 Import ListNotations.
 Local Open Scope N_scope.
 
+Definition k_project_name : text := [112;114;111;106;101;99;116;45;110;97;109;101].
+Definition k_privacy : text := [112;114;105;118;97;99;121].
+
 (* ================================================================== quoting *)
 
 (* _QUOTED_STR_REGEX, as it is in the source now, accepts exactly  q ( \\. | [^q\\] )* q  (+ one final LF)
@@ -247,6 +250,35 @@ Proof.
   split; [exact toml_file_parse | split; [exact toml_file_parse_list | exact ini_file_parse]].
 Qed.
 
+(* what is written quoted in an INI file is the command-line value -- for a file that the TOML parser rejects
+   (fv_toml = None in ini_file: that is the guard), any of the three section names, every non-flag option *)
+Theorem C20_ini_quoted_file_equals_cli_partial :
+  forall (printable : N -> bool) (section : text) (o : opt) (key s opt_string : text),
+    mem_text section config_sections = true ->
+    In o option_table -> In key (o_keys o) -> is_flag_kind (o_kind o) = false -> In opt_string (o_strings o) ->
+    Forall (repr_valid printable) s ->
+    pydoctor_parse_args [ini_file section key (py_repr printable s)] [] = pydoctor_parse_args [] [val_tok opt_string s].
+Proof.
+  intros printable section o key s opt_string Hsec Ho Hk Hf Hs Hv.
+  apply (pipeline_value_equals_cli _ o key s opt_string Ho Hk Hf Hs).
+  apply ini_file_parse; [exact Hsec | apply ini_value_repr; exact Hv].
+Qed.
+
+(* ... and without the guard it is false (known finding C20-K1): CompositeConfigParser tries TOML first on every
+   file.  pydoctor.ini holding   [pydoctor] / project-name = 'a\\b'   (the repr of a, backslash, b) is valid TOML,
+   where a single-quoted string is literal: toml.load gives a, backslash, backslash, b. *)
+Definition k1_value : text := [97; 92; 98].                                   (* a \ b *)
+Definition k1_written : text := [39; 97; 92; 92; 98; 39].                     (* 'a\\b' = repr *)
+Definition k1_file : file_view :=
+  {| fv_toml := Some [(s_pydoctor, TTable [(k_project_name, TStr [97; 92; 92; 98])])];
+     fv_ini := Some [(s_pydoctor, [(k_project_name, k1_written)])] |}.
+Theorem C20_ini_named_file_valid_toml_refuted :
+  py_repr (fun _ => true) k1_value = k1_written /\
+  pydoctor_parse_args [k1_file] [] <> pydoctor_parse_args [] [val_tok (45 :: 45 :: k_project_name) k1_value] /\
+  pydoctor_parse_args [ini_file s_pydoctor k_project_name k1_written] []
+  = pydoctor_parse_args [] [val_tok (45 :: 45 :: k_project_name) k1_value].
+Proof. split; [reflexivity | split; [vm_compute; discriminate | vm_compute; reflexivity]]. Qed.
+
 (* ================================================================== section lookup *)
 
 (* TOML: the first of the configured sections that exists and is a non-empty table is used, alone *)
@@ -268,8 +300,6 @@ Theorem C20_section_lookup_ini_partial :
 Proof. exact ini_single_section. Qed.
 
 (* ================================================================== non-vacuity *)
-Definition k_project_name : text := [112;114;111;106;101;99;116;45;110;97;109;101].
-Definition k_privacy : text := [112;114;105;118;97;99;121].
 Definition v_weird : text := [105;116;39;115;32;34;92;34;10;233].   (* i t apostrophe s space dquote backslash dquote LF e-acute *)
 
 (* the hypotheses of the pipeline theorems are met by real options, and the conclusions say something *)
